@@ -444,7 +444,10 @@ def tasks(tier):
     from . import c14
     t += [('contracts.c14', 'task_map', dict(cls=c)) for c in c14.MAPS]        # chain factor (dependency closure)
     # dependency closure: the reported misfit and the adjoint sources use the same data weights (Simulation contracts of C12, re-run here)
-    t += [('contracts.c12', 'task_op', dict(op='misfit')), ('contracts.c12', 'task_op', dict(op='gradient'))]
+    # dependency closure: the gradient belongs to the reported misfit only as long as every public operation keeps residual, weights, fields and
+    # caches coherent (C12) -- all operations, and the bounded operation sequences, are re-run here
+    from . import c12
+    t += c12.tasks(tier)
     return t
 
 
